@@ -191,14 +191,29 @@ func genObjData(rt *rapid.T, depth int) *spec.Value {
 
 func TestC14_Objects(t *testing.T) {
 	c := harness.New(t, "C14", "objects",
-		fmt.Sprintf("objects with 2..12 keys (literals, data maps, structs, nested) printed with {{ }} and @dump, joined inside arrays, concatenated through str-like functions, iterated programs around them, and keys looked up (dot, index, after assignment, inside @dump) under a spelling that differs in case from keys of which several are equal ignoring case; each case rendered %d times in one process: every result must equal the first byte for byte. Non-trivial: an object with >= 2 keys is printed or dumped (all cases). Distinct by hash.", c14Reps))
+		fmt.Sprintf("objects with 2..12 keys (literals, data maps, structs, nested) and data maps with 64..1000 keys printed with {{ }} and @dump, joined inside arrays, concatenated through str-like functions, iterated programs around them, and keys looked up (dot, index, after assignment, inside @dump) under a spelling that differs in case from keys of which several are equal ignoring case; each case rendered %d times in one process: every result must equal the first byte for byte. Non-trivial: an object with >= 2 keys is printed or dumped (all cases). Distinct by hash.", c14Reps))
 	defer c.Finish()
 	runRapid(t, c, 700, 9000, func(rt *rapid.T) {
 		var cs detCase
 		cs.Kind = "objects"
 		forms := []string{"{{ %s }}", "@dump(%s)", "{{ [%s, 1] }}", "@each(o in [%s]){{ o }}@end", "{{ x = %s; x }}", "@dump([%s])", "{{ [%s].join('|') }}", "@if(true){{ %s }}@end", "{{ 'say \"hi\" & <go>' }}{{ %s }}{{ \"it's\" }}"}
 		form := rapid.SampledFrom(forms).Draw(rt, "form")
-		if rapid.Bool().Draw(rt, "fromData") {
+		if rapid.IntRange(0, 7).Draw(rt, "manyKeys") == 0 {
+			// objects with hundreds of keys (also nested in another object)
+			n := rapid.SampledFrom([]int{64, 127, 128, 129, 200, 257, 1000}).Draw(rt, "nManyKeys")
+			keys := make([]string, n)
+			vals := make([]*spec.Value, n)
+			for i := range keys {
+				keys[i], vals[i] = fmt.Sprintf("key%d", (i*7919)%n), spec.Any(spec.IntOf(spec.TInt, int64(i)))
+			}
+			obj := spec.Map(spec.T(spec.TAny), keys, vals)
+			if rapid.Bool().Draw(rt, "nestedMany") {
+				obj = spec.Map(spec.T(spec.TAny), []string{"inner", "z", "a"}, []*spec.Value{spec.Any(obj), spec.Any(spec.IntOf(spec.TInt, 1)), spec.Any(spec.String("s"))})
+			}
+			cs.Data = (&spec.Data{}).Add("obj", obj)
+			cs.Src = fmt.Sprintf(form, "obj")
+			form = "many-keys " + form
+		} else if rapid.Bool().Draw(rt, "fromData") {
 			cs.Data = (&spec.Data{}).Add("obj", genObjData(rt, 1))
 			cs.Src = fmt.Sprintf(form, "obj")
 		} else {
